@@ -1,6 +1,6 @@
 #!/bin/sh
 # Runs every registered check (quick tier by default) and refreshes the evidence files.
-cd /verif || exit 2
+cd "${VERIF_HOME:-/verif}" || exit 2
 tier=${1:-quick}
 rc=0
 for id in $(python3 -c "import json;print(' '.join(c['property_id'] for c in json.load(open('MANIFEST.json'))['checks']))"); do
